@@ -51,10 +51,11 @@ def apply_variant(repo_root: str, v: dict) -> Optional[Dict[str, str]]:
         if n != e.get("count", 1):
             return None
         new = src.replace(e["find"], e["replace"])
-        try:
-            ast.parse(new)
-        except SyntaxError as ex:
-            raise AnalysisError(f"variant {v['id']} does not parse: {ex}")
+        if rel.endswith(".py"):
+            try:
+                ast.parse(new)
+            except SyntaxError as ex:
+                raise AnalysisError(f"variant {v['id']} does not parse: {ex}")
         overrides[rel] = new
     return overrides
 
